@@ -20,7 +20,7 @@ RULE = (
     "every payload length that needs 1..8 blocks plus cap(k)-1, cap(k), cap(k)+1 for k in {1..12, 31..33, 62..65, 125..127} "
     "(cap(k) = k*per-4 = largest payload of k blocks; boundary lengths above 1500 octets are kept for rates 3/4 and 1) and "
     "length 1500, each with 0, 1, 2 and 16 preambles (quick: 2 only up to 40 blocks); thorough: additionally every length "
-    "0..1500; payload bytes rotate hash-expanded / all 00 / all FF, other fields rotate.  "
+    "0..1500, and two payload variants for 0 and 1 preambles; payload bytes rotate hash-expanded / all 00 / all FF, other fields rotate.  "
     "'crc_extremes': payloads solved by GF(2) linearity (dmr_ref.force_crc32 / force_crc9_field) so that the packet CRC-32 is "
     "exactly 00000000, FFFFFFFF, 00000001 or 80000000 (11 lengths per slice incl. 5, 6, exact fits, pad > 0, 30 blocks) or "
     "that the CRC-9 field of one intermediate confirmed block is 000 or 1FF (2, 3, 6 blocks, every intermediate block in "
@@ -332,14 +332,16 @@ def drv_lengths(ctx: Ctx, sub: SubCheck):
             for pi, n_pre in enumerate(pre_counts):
                 if ctx.quick and n_pre == 2 and dmr_ref.fragment(l, rate, conf)[0] > 40:
                     continue  # quick budget: the expensive long transmissions run with 0, 1 and 16 preambles only
-                q = j + si + pi
-                fillsel = q % 4
-                payload = {"prng": rng.getrandbits(32), "len": l} if fillsel < 2 else {"fill": 0x00 if fillsel == 2 else 0xFF, "len": l}
-                items.append(({
-                    "rate": rate, "confirmed": conf, "payload": payload, "preambles": n_pre, "cc": (q * 7) % 16,
-                    "ts": 1 + (q % 2), "dst": 1 + rng.getrandbits(23), "src": 1 + rng.getrandbits(23), "group": bool(q % 3 == 0),
-                    "sap": SAPS[q % len(SAPS)], "full": q % 2, "resync": (q // 2) % 2, "ns": q % 8, "fsn": (8 + q % 8) if conf else 0,
-                }, ["length_above_1500_(block_count_boundary)"] if l > MAX_LEN else []))
+                # thorough: with 0 and 1 preambles (the header is then the only / main source of the block count) two payload variants
+                for variant in range(2 if (not ctx.quick and n_pre < 2) else 1):
+                    q = j + si + pi + 2 * variant
+                    fillsel = q % 4
+                    payload = {"prng": rng.getrandbits(32), "len": l} if fillsel < 2 else {"fill": 0x00 if fillsel == 2 else 0xFF, "len": l}
+                    items.append(({
+                        "rate": rate, "confirmed": conf, "payload": payload, "preambles": n_pre, "cc": (q * 7) % 16,
+                        "ts": 1 + (q % 2), "dst": 1 + rng.getrandbits(23), "src": 1 + rng.getrandbits(23), "group": bool(q % 3 == 0),
+                        "sap": SAPS[q % len(SAPS)], "full": q % 2, "resync": (q // 2) % 2, "ns": q % 8, "fsn": (8 + q % 8) if conf else 0,
+                    }, ["length_above_1500_(block_count_boundary)"] if l > MAX_LEN else []))
     _run_cases(ctx, sub, items)
     ctx.tally.excluded["length_needs_more_than_127_blocks_(7-bit_BTF)"] += n_excl
     ctx.tally.extra["lengths_preamble_counts"] = pre_counts
@@ -462,7 +464,7 @@ def drv_random(ctx: Ctx, sub: SubCheck):
 
     def hyp(shard, t: Tally):
         rc = SLICES[shard % len(SLICES)]
-        ctx.hypothesis(sub.name, build(rc), oracle, ctx.pick(40, 600), tally=t, shard=shard, record=rec)
+        ctx.hypothesis(sub.name, build(rc), oracle, ctx.pick(40, 900), tally=t, shard=shard, record=rec)
 
     ctx.shards(hyp, list(range(ctx.pick(30, 48))))
 
